@@ -30,21 +30,22 @@ def run(thrdrv, lib, sc, k):
 def stress_case(args):
     """free-running threads that only read unchanging objects (harness/thrdrv stress): every call must succeed with the bytes a
     sequential run gave; a process killed by a signal is a crash"""
-    thrdrv, lib, threads, iters, idx = args
+    thrdrv, lib, threads, iters, idx = args[:5]
+    mode = args[5] if len(args) > 5 else 'stress'
     d = vlib.mktmp('vt-')
     try:
         conf = vlib.write_conf(d)
         try:
-            r = subprocess.run([thrdrv, lib, 'stress', str(threads), str(iters)], capture_output=True, text=True, errors='replace', env={'SOFTHSM2_CONF': conf}, timeout=90)
+            r = subprocess.run([thrdrv, lib, mode, str(threads), str(iters)], capture_output=True, text=True, errors='replace', env={'SOFTHSM2_CONF': conf}, timeout=90)
         except subprocess.TimeoutExpired:
             return {'i': idx, 'finding': 'stress run %d (%d threads x %d read-only calls) did not finish in 90 s' % (idx, threads, iters), 'raw': 'TIMEOUT'}
         line = r.stdout.strip().splitlines()[-1] if r.stdout.strip() else ''
         if r.returncode < 0:
-            return {'i': idx, 'finding': 'stress run %d: the process was killed by signal %d while %d threads only read unchanging objects' % (idx, -r.returncode, threads), 'raw': line}
+            return {'i': idx, 'finding': '%s run %d: the process was killed by signal %d while %d threads only read unchanging objects' % (mode, idx, -r.returncode, threads), 'raw': line}
         if line.startswith('stress ok'):
             return {'i': idx, 'finding': None, 'raw': line, 'calls': int(line.split('calls=')[1])}
         if line.startswith('stress bad') or line == 'TIMEOUT':
-            return {'i': idx, 'finding': 'stress run %d: a read-only call on an unchanging object gave another answer under concurrency: %s' % (idx, line[:300]), 'raw': line}
+            return {'i': idx, 'finding': '%s run %d: a read-only call on an unchanging object gave another answer under concurrency: %s' % (mode, idx, line[:300]), 'raw': line}
         return {'i': idx, 'finding': 'stress run %d could not be set up: %s' % (idx, (line or r.stderr.strip())[-200:]), 'raw': line}
     finally:
         shutil.rmtree(d, ignore_errors=True)
